@@ -398,9 +398,17 @@ impl Sched {
             return;
         }
         let st = self.lock();
+        let mut st = st;
         if st.aborted.is_some() && my_tid() != 0 {
-            // the run is over: park this thread forever (it is leaked)
+            // the run is over: give the baton to main and park this thread forever (it is leaked)
+            st.threads[0].state = TState::Runnable;
+            let main_parker = st.threads[0].parker.clone();
             drop(st);
+            {
+                let mut go = main_parker.go.lock().unwrap();
+                *go = true;
+                main_parker.cv.notify_one();
+            }
             self.park_forever();
         }
         let _ = why;
